@@ -24,7 +24,7 @@ def generate(seed, tier="quick"):
     oid = len(prog["ops"])
     if rnd.random() < 0.6:
         p, pname = sampling.gen_path(rnd)
-        op = {"id": oid, "op": "iterative", "data": 0, "lib": 0, "joker": "main", "role": "target"}
+        op = {"id": oid, "op": "iterative", "data": rnd.randrange(len(cfg["datasets"])), "lib": 0, "joker": "main", "role": "target"}
         op.update(p)
         op["kw"] = sampling.gen_iterative_kw(rnd, N, pname)
         op["kw"]["init_batch_size"] = rnd.randint(1, N)
@@ -55,7 +55,7 @@ class AStar:
 
 def data_t_ref_mjd(data):
     if hasattr(data, "t_ref"):
-        return float(data.t_ref.tcb.mjd)
+        return None if data.t_ref is None else float(data.t_ref.tcb.mjd)
     ds = data.values() if hasattr(data, "values") else data
     return float(min(d.t.tcb.mjd.min() for d in ds))
 
@@ -76,12 +76,13 @@ def judge_linear(dep, rec, info, L, AS, probes):
     rows = info["expected_rows"]
     nl = A.nl
     names = sampling._linear_names(prior)
-    un, vu = sampling.expected_units(prior)
+    rvu = sampling.data_unit(dep, op)
+    un, vu = sampling.expected_units(prior, rvu)
     for i in range(1, prior["poly_trend"]):
         un["v%d" % i] = None  # checked through astropy below
     # metadata
     exp_tref = data_t_ref_mjd(dep.world.datasets[op.get("data", 0)])
-    if out["t_ref_mjd"] is None or abs(out["t_ref_mjd"] - exp_tref) > 1e-9:
+    if (out["t_ref_mjd"] is None) != (exp_tref is None) or (exp_tref is not None and abs(out["t_ref_mjd"] - exp_tref) > 1e-9):
         v.append(Violation(PROPERTY, "C03.meta", sig + ":t_ref-differs-from-data", "t_ref %s vs data %s" % (out["t_ref_mjd"], exp_tref)))
     if out["poly_trend"] != prior["poly_trend"] or out["n_offsets"] != prior["n_offsets"]:
         v.append(Violation(PROPERTY, "C03.meta", sig + ":poly_trend-or-n_offsets-differs", "%s/%s vs %s/%s" % (out["poly_trend"], out["n_offsets"], prior["poly_trend"], prior["n_offsets"])))
@@ -93,7 +94,7 @@ def judge_linear(dep, rec, info, L, AS, probes):
         return v
     import astropy.units as u
 
-    vunit = u.Unit(prior["rv_unit"])
+    vunit = u.Unit(rvu)
     for j, n in enumerate(names):
         if n.startswith("v") and n != "v0":
             want = vunit / u.day ** int(n[1:])
@@ -203,6 +204,8 @@ def evaluate(dep, program):
                 fp = t.get("fp")
                 if fp is None:
                     continue
+                if t.get("is_parent"):
+                    v.append(Violation(PROPERTY, "C03.independence", "C03:child-generators:task-carries-the-sampler's-own-generator", "map %s task %d" % (m["key"], i)))
                 if fp in fps:
                     v.append(Violation(PROPERTY, "C03.independence", "C03:child-generators:same-stream-given-to-two-tasks", "map %s task %d starts in the state of %s" % (m["key"], i, fps[fp])))
                 fps.setdefault(fp, "%s task %d" % (m["key"], i))
